@@ -75,6 +75,10 @@ def embed_vcs(env, want):
     out = []
 
     def on(c):
+        if env.get('extra_callable') and c not in (C_FRAME, C_FRESH, C_ONLY_VE, C_WF, C_DEPTHS):
+            return False      # the variant with richer provenance (a callable known to both sides) is stated for the depth map and the frame
+        if env.get('bare_first') and c in (C_SRC_WF, C_SRC_EXACT, C_DEPTHS):
+            return False      # an input without provenance: the provenance clauses have nothing to say
         return want is None or any(p in want for p in c.props)
 
     if env['mode'] == 'fold':
@@ -228,7 +232,7 @@ def embed_vcs(env, want):
                     goal = z3.And(z3.BoolVal(len(lst) == 1), *[f.t == f_exp.t for f in lst])
                     out.append(VC(C_SRC_EXACT.full + ':%s' % p._d.get('_vf_tag', '?'), [key_eq(k, name_term(p)), z3.Not(shared)], goal, C_SRC_EXACT.props))
         if on(C_DEPTHS) and isinstance(dep, SymDict):
-            exp = [(outer.funcs[0].t, outer.depth_terms[0]), (inner.funcs[0].t, inner.depth_terms[0] + 1)]
+            exp = [(f_.t, d_) for f_, d_ in zip(outer.funcs, outer.depth_terms)] + [(f_.t, d_ + 1) for f_, d_ in zip(inner.funcs, inner.depth_terms)]
             for f, _ in exp:
                 out.append(VC(C_DEPTHS.full + ':has', [], z3.Or(*[dk.t == f for dk in dep_keys]), C_DEPTHS.props))
             for dk, dv in dep.items_:
@@ -247,7 +251,7 @@ def embed_vcs(env, want):
     return out
 
 
-def make_runner(shapes_, mode='embed', want=None, flags=True):
+def make_runner(shapes_, mode='embed', want=None, flags=True, bare_first=False, extra_callable=False):
     I = Interp()
     from vf import world as _world
     _world.install_externals(I, {})     # eval(expression, f.__globals__) is the uninterpreted evalin
@@ -263,8 +267,13 @@ def make_runner(shapes_, mode='embed', want=None, flags=True):
             return ('raise', e)
 
     def run(ctx, r):
-        infos = [mk_sig(I, ctx, 's%d' % i, sh) for i, sh in enumerate(shapes_)]
+        infos = [mk_sig(I, ctx, 's%d' % i, sh, nfuncs=2 if extra_callable else 1) for i, sh in enumerate(shapes_)]
+        env['extra_callable'] = extra_callable
         ctx.add(z3.Distinct(*[i.funcs[0].t for i in infos]))
+        if bare_first:
+            from vf.harness import strip_provenance
+            strip_provenance(infos[0])
+        env['bare_first'] = bare_first
         env['infos'] = infos
         env['r'] = r
         r.inputs = infos
@@ -292,7 +301,8 @@ vcs = embed_vcs
 
 def _concrete_case(env, conc):
     infos = env['infos']
-    sigs = [conc.build_sig(i) for i in infos]
+    sigs = [conc.build_input(i) for i in infos]
+    conc.add_extra_callables(infos, sigs)
     fl = {k: (conc.boolean(v.t) if isinstance(v, SymBool) else bool(v)) for k, v in env['flags'].items()}
     return sigs, fl
 
